@@ -211,8 +211,8 @@ func (s *state) walk(node ast.Node) {
 		s.val = data.List(items)
 	case *ast.MapLiteralNode:
 		var items = make(data.Map, len(node.Items))
-		for k, v := range node.Items {
-			items[k] = s.eval(v)
+		for _, k := range node.Keys() {
+			items[k] = s.eval(node.Items[k])
 		}
 		s.val = data.Map(items)
 	case *ast.FunctionNode:
